@@ -12,6 +12,13 @@ The canonical form of the *realised* objects (phase 1) is the input of the Lean 
 
 Correspondence: outcomes (value or error kind) of a+b, b+c, (a+b)+c, a+(b+c), e+a, a+e for
 allow_overwrite False/True, real code vs. model.
+Dynamic families (`family == "dyn"`, `case["schema"]`): the schema classes are part of the case — a
+sequence of class definitions (class statement or `create_model`, MetadataSchema / plain pydantic
+base with extra=allow / extra=ignore), in which a NAME may be defined several times (distinct classes
+with identical module and qualname and different field sets: re-executed definition, schema factory,
+`class X(X)`), with the partial of an earlier definition created before the next definition exists
+or only at the end. Classes are labelled `<name>~<k>` in the canonical forms.
+
 Oracle (real code only): identity, associativity (under ChainAt), operands unchanged, list
 concat / set union / recursive merge / nothing dropped / conflict raises / later wins (walk over
 the canonical forms), from_partial(to_partial(o)) == o, harvest() == left fold.
@@ -30,7 +37,7 @@ LEAN = dict(
         "merge_empty_left", "merge_empty_right", "merge_assoc", "merge_list_concat", "merge_set_union",
         "merge_nested", "no_value_dropped", "conflict_raises", "later_wins", "from_to_partial",
         "legacy_or_drops_falsy", "merge_empty_left'", "merge_assoc_nested", "no_value_dropped_strict",
-        "conflict_is_value_error"]],
+        "conflict_is_value_error", "get_partial_src", "get_partial_src_run", "get_partial_cached"]],
     drivers=["drv_par"],
 )
 
@@ -139,10 +146,137 @@ def _installed(name):
     return _fam[key]
 
 
-def _family(fam):
+def _family(fam, case=None):
     if fam.startswith("inst:"):
         return _installed(fam[5:])
+    if fam == "dyn":
+        return _dyn_family(case["schema"])
     return _families()[fam]
+
+
+# ----------------------------------------------------------------------------- dynamic families
+_LABELS = {}   # class object -> label (dynamic families: several classes share one __name__)
+_dyn = {}      # canonical schema json -> family
+_dyn_count = [0]
+
+DYN_TYPES = {"int": "int", "bool": "bool", "str": "str", "Lint": "List[int]", "Lstr": "List[str]",
+             "Eint": "Set[int]", "Estr": "Set[str]", "Leaf": "Leaf", "LLeaf": "List[Leaf]"}
+DYN_DEFAULTS = {"int": "3", "bool": "False", "str": "'d'", "Lint": "[]", "Lstr": "[]", "Eint": "set()", "Estr": "set()"}
+
+
+def dyn_fields(schema, label):
+    """all fields (name, type, mode, declaring class) of the class `label`, inherited ones first."""
+    by = {r["label"]: r for r in schema["revs"]}
+    chain = []
+    while label is not None:
+        chain.append(by[label])
+        label = by[label]["parent"]
+    out = []
+    for r in reversed(chain):
+        out += [(f, ty, mode, r["label"]) for f, ty, mode in r["fields"]]
+    return out
+
+
+def dyn_chain(schema, label):
+    by = {r["label"]: r for r in schema["revs"]}
+    out = []
+    while label is not None:
+        out.append(label)
+        label = by[label]["parent"]
+    return list(reversed(out))
+
+
+def dyn_reqs(schema):
+    """`req` declarations for the model: chain and required fields of every class of the schema."""
+    return [[".".join(dyn_chain(schema, r["label"])), [f for f, _, m, _ in dyn_fields(schema, r["label"]) if m == "req"]]
+            for r in schema["revs"]]
+
+
+def dyn_gp(schema):
+    """the `get_partial` calls of `_dyn_family` in order, then one more per class (stored partial):
+    (label, uid of the class object, name)."""
+    revs = schema["revs"]
+    uid = {r["label"]: i + 1 for i, r in enumerate(revs)}
+    first = [r for r in revs if r.get("touch", True)] + [r for r in revs if not r.get("touch", True)]
+    return [("Leaf", 0, "Leaf")] + [(r["label"], uid[r["label"]], r["name"]) for r in first + revs]
+
+
+def _dyn_family(schema):
+    """Build the classes of a schema description, one definition after the other, in a fresh module.
+    rev = {label, name, parent (label | None), fields [[name, type, mode opt|req|def]], touch};
+    `touch`: the partial of the class is created right after its definition (before the next
+    definition of possibly the same name exists), otherwise after all definitions, in order."""
+    key = json.dumps(schema, sort_keys=True)
+    if key in _dyn:
+        return _dyn[key]
+    import sys
+    import types
+    from typing import ForwardRef, List, Optional, Set
+
+    from pydantic import BaseModel, create_model
+
+    from metador_core.schema import MetadataSchema
+    from metador_core.schema.partial import PartialFactory
+
+    _dyn_count[0] += 1
+    mod = types.ModuleType("vt_c14_dyn%d" % _dyn_count[0])
+    sys.modules[mod.__name__] = mod
+    g = mod.__dict__
+    if schema["base"] == "ms":
+        base, fac = MetadataSchema, None
+    else:
+        class PBase(BaseModel):
+            class Config:
+                extra = "allow" if schema["base"] == "pl" else "ignore"
+        PBase.__module__ = mod.__name__
+
+        class DynFactory(PartialFactory):
+            base_model = PBase
+        base, fac = PBase, DynFactory
+    g.update(BASE=base, Optional=Optional, List=List, Set=Set, __name__=mod.__name__)
+    exec("class Leaf(BASE):\n    a: Optional[int]\n    s: Optional[str]\n", g)
+    Leaf = g["Leaf"]
+    _LABELS[Leaf] = "Leaf"
+
+    def get_partial(c):
+        return c.Partial if fac is None else fac.get_partial(c)
+
+    classes, partial = {"Leaf": Leaf}, {"Leaf": get_partial(Leaf)}
+    for r in schema["revs"]:
+        name, par = r["name"], (classes[r["parent"]] if r["parent"] else base)
+        if any(ty == "self" for _, ty, _ in r["fields"]):
+            # pydantic resolves the string annotation at class creation in the module namespace, where the
+            # name still denotes the previous definition: define the recursive class in a namespace without it
+            g.pop(name, None)
+        if schema["how"] == "create_model":
+            ns = dict(int=int, bool=bool, str=str, List=List, Set=Set, Leaf=Leaf)
+            fdefs = {}
+            for f, ty, mode in r["fields"]:
+                t = ForwardRef(name) if ty == "self" else eval(DYN_TYPES[ty], ns)
+                fdefs[f] = (Optional[t], None) if mode == "opt" else (t, ...) if mode == "req" else (t, eval(DYN_DEFAULTS[ty]))
+            cls = create_model(name, __base__=par, __module__=mod.__name__, **fdefs)
+        else:
+            g["_PARENT"] = par
+            body = []
+            for f, ty, mode in r["fields"]:
+                t = '"%s"' % name if ty == "self" else DYN_TYPES[ty]
+                body.append("    %s: %s" % (f, "Optional[%s]" % t if mode == "opt" else t if mode == "req" else "%s = %s" % (t, DYN_DEFAULTS[ty])))
+            exec("class %s(_PARENT):\n%s\n" % (name, "\n".join(body) or "    pass"), g)
+            cls = g[name]
+        g[name] = cls
+        cls.update_forward_refs(**{name: cls, "Leaf": Leaf})
+        classes[r["label"]] = cls
+        _LABELS[cls] = r["label"]
+        if r.get("touch", True):
+            partial[r["label"]] = get_partial(cls)
+    for r in schema["revs"]:
+        if r["label"] not in partial:
+            partial[r["label"]] = get_partial(classes[r["label"]])
+    fam = dict(classes=classes, partial=partial, base=base, get_partial=get_partial, yaml=(schema["base"] == "ms"), harvest=(schema["base"] == "ms"))
+    if len(_dyn) > 64:
+        _dyn.clear()
+    _dyn[key] = fam
+    return fam
 
 
 # ----------------------------------------------------------------------------- canonical form
@@ -157,7 +291,7 @@ def _chain(cls, base):
             break
         if issubclass(c, PartialModel):
             continue
-        names.append(c.__name__)
+        names.append(_LABELS.get(c, c.__name__))
     return list(reversed(names))
 
 
@@ -261,8 +395,8 @@ def _inst(spec, fam, mode):
     raise ValueError(spec)
 
 
-def realise(spec, src, famname, tmpdir):
-    fam = _family(famname)
+def realise(spec, src, famname, tmpdir, fam=None):
+    fam = fam or _family(famname)
     if famname.startswith("inst:"):
         top = fam["top"]
         P = top.Partial
@@ -282,7 +416,7 @@ def realise(spec, src, famname, tmpdir):
         with open(path, "w") as f:
             f.write(_y.safe_dump(_plain(spec)) if _plain(spec) else "{}\n")
         from pathlib import Path
-        if famname == "pl":  # plain pydantic models have no YAML route in the library
+        if not fam.get("yaml", famname != "pl"):  # plain pydantic models have no YAML route in the library
             return P.parse_raw(json.dumps(_plain(spec)))
         return metadata_loader(top)(filepath=Path(path)).harvest()
     if src == "ctor" and famname.startswith("inst:"):
@@ -460,7 +594,12 @@ def realise_canon(case):
     import tempfile
     tmp = tempfile.mkdtemp(prefix="c14_")
     try:
-        fam = _family(case["family"])
+        try:
+            fam = _family(case["family"], case)
+        except Exception as e:  # noqa: BLE001  (a schema the library does not accept)
+            if case["family"] != "dyn":
+                raise
+            return dict(unrealisable="schema %s: %s" % (type(e).__name__, str(e)[:300]))
         out = []
         if case.get("kind") == "roundtrip":
             try:
@@ -469,7 +608,7 @@ def realise_canon(case):
                 return dict(unrealisable="%s: %s" % (type(e).__name__, str(e)[:300]))
         for spec, src in zip(case["ops"], case["src"]):
             try:
-                o = realise(spec, src, case["family"], tmp)
+                o = realise(spec, src, case["family"], tmp, fam)
             except Exception as e:  # noqa: BLE001
                 return dict(unrealisable="%s: %s" % (type(e).__name__, str(e)[:300]))
             out.append(canon_val(o, fam["base"]))
@@ -490,32 +629,63 @@ def impl(case):
 
 def _impl(case, tmp):
     famname = case["family"]
-    fam = _family(famname)
+    fam = _family(famname, case)
     base = fam["base"]
     out, oracle, tags = [], [], []
+    if famname == "dyn":
+        names = [r["name"] for r in case["schema"]["revs"]]
+        tags.append("dyn")
+        # which class the partial of every class was made from (first creation, then the stored one)
+        uid = {"Leaf": 0, **{r["label"]: i + 1 for i, r in enumerate(case["schema"]["revs"])}}
+        n1 = 1 + len(names)
+        for i, (lab, u, _) in enumerate(dyn_gp(case["schema"])):
+            P = fam["partial"][lab] if i < n1 else fam["get_partial"](fam["classes"][lab])
+            out.append("gp %s" % uid.get(_LABELS.get(P.__partial_src__), "?"))
+        if len(set(names)) < len(names):
+            tags.append("dyn:same-name-classes")
     kind = case.get("kind", "triple")
     if kind == "roundtrip":
         # from_partial(to_partial(o)) == o for complete objects
         o = _inst(case["obj"], fam, "complete")
         P = fam["partial"][case["obj"][1]]
         before = _snap(o, base)
-        p = P.to_partial(o)
-        back = p.from_partial()
+        try:
+            p = P.to_partial(o)
+            back = p.from_partial()
+        except Exception as e:  # noqa: BLE001  (a complete, valid object must convert both ways)
+            oracle.append(dict(kind="from-to-partial", obj=case["obj"], back="raise %s: %s" % (type(e).__name__, str(e)[:200])))
+            out.append("rt err %s" % ("validation" if isinstance(e, ValueError) else "exc:" + type(e).__name__))
+            return dict(out=out, oracle=oracle, tags=tags + ["roundtrip"])
         if not (back == o) or canon_val(back, base) != canon_val(o, base) or type(back) is not type(o):
-            oracle.append(dict(kind="from-to-partial", obj=case["obj"], back=canon_val(back, base)))
+            oracle.append(dict(kind="from-to-partial", obj=case["obj"], back=canon_val(back, base),
+                               back_class_is_obj_class=type(back) is type(o),
+                               values_equal=strip(canon_val(back, base)) == strip(canon_val(o, base))))
         if _snap(o, base) != before:
             oracle.append(dict(kind="operand-mutated", by="to_partial/from_partial"))
         out.append("rt ok %s" % show(canon_val(back, base)))
         tags.append("roundtrip")
         return dict(out=out, oracle=oracle, tags=tags)
 
-    objs = [realise(s, src, famname, tmp) for s, src in zip(case["ops"], case["src"])]
+    objs = [realise(s, src, famname, tmp, fam) for s, src in zip(case["ops"], case["src"])]
     cs = [canon_val(o, base) for o in objs]
     if cs != case["canon"]:
         raise RuntimeError("realisation is not deterministic")
     a, b, c = objs
     ca, cb, cc = cs
     snaps = [_snap(o, base) for o in objs]
+    if not famname.startswith("inst:"):
+        # operands converted from a complete object: converting back gives the same object
+        for spec, src, p in zip(case["ops"], case["src"], objs):
+            if src != "complete":
+                continue
+            o = _inst(spec, fam, "complete")
+            try:
+                back = p.from_partial()
+            except Exception as e:  # noqa: BLE001
+                oracle.append(dict(kind="from-to-partial", obj=spec, back="raise " + type(e).__name__))
+                continue
+            if not (back == o) or canon_val(back, base) != canon_val(o, base) or type(back) is not type(o):
+                oracle.append(dict(kind="from-to-partial", obj=spec, back=canon_val(back, base)))
     E = type(a)()
     chain = chain_at(cs)
     if not chain:
@@ -570,7 +740,7 @@ def _impl(case, tmp):
         if _snap(o, base) != s:
             oracle.append(dict(kind="operand-mutated", operand=nm, before=s[0], after=_snap(o, base)[0]))
     # --- the harvest pipeline is the left fold (allow_overwrite=False)
-    if case.get("harvest") and famname != "pl":
+    if case.get("harvest") and fam.get("harvest", famname != "pl"):
         from metador_core.harvester import Harvester, harvest
 
         class H(Harvester):
@@ -612,19 +782,32 @@ def _impl(case, tmp):
 # ----------------------------------------------------------------------------- model lines
 def lines(case):
     if case.get("kind") == "roundtrip":
-        return ["req Top " + "r".encode().hex(), "req Top.Top2 " + "r".encode().hex(), "rt " + show(case["canon"][0])]
+        return ["req %s" % " ".join([c] + [f.encode().hex() for f in fs]) for c, fs in _reqs(case)] + _gp_lines(case) + ["rt " + show(case["canon"][0])]
     L = []
     for nm, cv in zip("abc", case["canon"]):
         L.append("set %s %s" % (nm, show(cv)))
+    L += _gp_lines(case)
     for ow in "FT":
         for op in ("ab", "bc", "ab_c", "a_bc", "ea", "ae"):
             L.append("m %s %s" % (op, ow))
     return L
 
 
+def _gp_lines(case):
+    if case["family"] != "dyn":
+        return []
+    return ["gp %d %s" % (u, n.encode().hex()) for _, u, n in dyn_gp(case["schema"])]
+
+
+def _reqs(case):
+    if case["family"] == "dyn":
+        return dyn_reqs(case["schema"])
+    return [["Top", ["r"]], ["Top.Top2", ["r"]]]
+
+
 def compare(case, ir, mo):
     if case.get("kind") == "roundtrip":
-        return core.default_compare(case, dict(out=["ok"] * 2 + ir["out"]), mo)
+        return core.default_compare(case, dict(out=["ok"] * len(_reqs(case)) + ir["out"]), mo)
     return core.default_compare(case, dict(out=["ok"] * 3 + ir["out"]), mo)
 
 
@@ -770,6 +953,99 @@ def g_installed(rng, name):
     return ["O", "?", f]
 
 
+DYN_NAMES = ["Sample", "Row", "Entry"]
+DYN_FNAMES = ["va", "vb", "vc", "vd", "ve", "vf", "vg", "vh"]
+DYN_ATOMIC = ["int", "bool", "str", "Lint", "Lstr", "Eint", "Estr"]
+
+
+def g_schema(rng):
+    """A sequence of class definitions in which a name is regularly defined more than once (distinct
+    classes, identical module + qualname, different field sets), also as `class X(X)`."""
+    base = rng.choice(["ms", "ms", "pl", "pi"])
+    how = "class" if rng.random() < 0.7 else "create_model"
+    revs = []
+    for i in range(rng.choice([1, 2, 2, 3, 3, 4])):
+        if revs and rng.random() < 0.6:
+            name = rng.choice(revs)["name"]
+        else:
+            name = rng.choice(DYN_NAMES)
+        parent = rng.choice(revs)["label"] if revs and rng.random() < 0.3 else None
+        sch = dict(revs=revs)
+        inherited = {f for f, _, _, _ in dyn_fields(sch, parent)} if parent else set()
+        pool = [f for f in DYN_FNAMES if f not in inherited]
+        fields = []
+        for f in sorted(rng.sample(pool, min(len(pool), rng.choice([1, 2, 2, 3, 4])))):
+            ty = rng.choice(DYN_ATOMIC + ["int", "str", "Leaf", "LLeaf"])
+            r = rng.random()
+            mode = "opt" if r < 0.6 or ty in ("Leaf",) else "req" if r < 0.8 else "def" if ty in DYN_DEFAULTS else "opt"
+            fields.append([f, ty, mode])
+        revs.append(dict(label="%s~%d" % (name, i), name=name, parent=parent, fields=fields, touch=rng.random() < 0.7))
+    # a recursive field only in the last definition of a name (a string annotation is resolved in the
+    # module namespace, i.e. to whatever class carries the name when it is evaluated)
+    for i, r in enumerate(revs):
+        last = all(q["name"] != r["name"] for q in revs[i + 1:])
+        sch = dict(revs=revs)
+        if last and rng.random() < 0.4 and "nx" not in {f for f, _, _, _ in dyn_fields(sch, r["label"])} \
+                and not any("nx" in {f for f, _, _ in q["fields"]} for q in revs if r["label"] in dyn_chain(sch, q["label"])):
+            r["fields"].append(["nx", "self", "opt"])
+    return dict(base=base, how=how, revs=revs)
+
+
+def g_dyn(rng, schema, label, depth, complete=False, sparse=0.4):
+    fs = "ms" if schema["base"] == "ms" else "pl"
+    f = {}
+    for name, ty, mode, owner in dyn_fields(schema, label):
+        if not ((complete and mode == "req") or rng.random() < (sparse if mode == "opt" else max(sparse, 0.5))):
+            continue
+        if ty == "self":
+            if depth > 0:
+                f[name] = g_dyn(rng, schema, owner, depth - 1, complete, sparse)
+        elif ty == "int":
+            f[name] = g_int(rng)
+        elif ty == "bool":
+            f[name] = ["B", rng.random() < 0.3]
+        elif ty == "str":
+            f[name] = g_str(rng, fs)
+        elif ty == "Lint":
+            f[name] = ["L", [g_int(rng) for _ in range(rng.choice([0, 1, 2]))]]
+        elif ty == "Lstr":
+            f[name] = ["L", [g_str(rng, fs) for _ in range(rng.choice([0, 1, 2]))]]
+        elif ty == "Eint":
+            f[name] = ["E", _uniq([g_int(rng) for _ in range(rng.choice([0, 1, 2, 3]))])]
+        elif ty == "Estr":
+            f[name] = ["E", _uniq([g_str(rng, fs) for _ in range(rng.choice([0, 1, 2]))])]
+        elif ty == "Leaf":
+            f[name] = g_leaf(rng, fs)
+        elif ty == "LLeaf":
+            f[name] = ["L", [g_leaf(rng, fs) for _ in range(rng.choice([0, 1, 2]))]]
+        else:
+            raise ValueError(ty)
+    return ["O", label, f]
+
+
+def gen_dyn_cases(rng, n_schemas, per):
+    cases = []
+    for _ in range(n_schemas):
+        schema = g_schema(rng)
+        labels = [r["label"] for r in schema["revs"]]
+        plan = [("roundtrip", lab) for lab in labels] + [("triple", lab) for lab in labels]
+        plan += [(rng.choice(["roundtrip", "triple", "triple"]), rng.choice(labels)) for _ in range(per)]
+        for kind, lab in plan:
+            if kind == "roundtrip":
+                cases.append(dict(kind="roundtrip", family="dyn", schema=schema,
+                                  obj=g_dyn(rng, schema, lab, 2, complete=True, sparse=rng.choice([0.2, 0.5, 0.8]))))
+                continue
+            sparse = rng.choice([0.15, 0.3, 0.5, 0.8])
+            srcs = [rng.choice(SRCS) for _ in range(3)] if rng.random() < 0.8 else ["dict"] * 3
+            chain = dyn_chain(schema, lab)
+            tops = [lab] * 3 if len(chain) < 2 or rng.random() < 0.75 else [rng.choice(chain) for _ in range(3)]
+            if len(set(tops)) > 1:
+                srcs = [rng.choice(["dict", "json", "yaml"]) for _ in range(3)]  # (see gen_cases)
+            ops = [g_dyn(rng, schema, tc, 2, complete=(s_ == "complete"), sparse=sparse) for s_, tc in zip(srcs, tops)]
+            cases.append(dict(kind="triple", family="dyn", schema=schema, ops=ops, src=srcs, harvest=(rng.random() < 0.3)))
+    return cases
+
+
 def gen_cases(ctx, scale=1.0):
     rng = ctx.rng
     cases = []
@@ -820,6 +1096,8 @@ def gen_cases(ctx, scale=1.0):
     for i in range(nr):
         fam = "pl" if rng.random() < 0.3 else "ms"
         cases.append(dict(kind="roundtrip", family=fam, obj=g_top(rng, fam, 2, ("Par", "Chi", "Gch", "Sib"), complete=True, sparse=0.5)))
+    # schema families that are part of the case (names defined more than once, see g_schema)
+    cases += gen_dyn_cases(rng, int((60 if ctx.quick else 600) * scale), 6)
     return cases
 
 
@@ -838,7 +1116,7 @@ def phase1(ctx, cases):
         else:
             ctx.dist["unrealisable:" + c["family"]] += 1
             if len(ctx.notes) < 5:
-                ctx.notes.append("unrealisable %s %s: %s" % (c["family"], c["src"], r["ok"]["unrealisable"][:200]))
+                ctx.notes.append("unrealisable %s %s: %s" % (c["family"], c.get("src"), r["ok"]["unrealisable"][:200]))
     return keep
 
 
@@ -896,14 +1174,80 @@ def shrink(ctx, case, detail):
     return _shrunk[want]
 
 
+def _labels_used(spec, acc):
+    if spec[0] == "O":
+        acc.add(spec[1])
+        for v in spec[2].values():
+            _labels_used(v, acc)
+    elif spec[0] in "LE":
+        for v in spec[1]:
+            _labels_used(v, acc)
+    return acc
+
+
+def _strip_field(spec, schema, rev, fname):
+    """spec without the field `fname` in every object whose class is `rev` or inherits from it."""
+    if spec[0] == "O":
+        f = {k: _strip_field(v, schema, rev, fname) for k, v in spec[2].items()
+             if not (k == fname and rev in dyn_chain(schema, spec[1]))} if spec[1] != "Leaf" else spec[2]
+        return ["O", spec[1], f]
+    if spec[0] == "L":
+        return ["L", [_strip_field(v, schema, rev, fname) for v in spec[1]]]
+    return spec
+
+
+def _specs(case):
+    return case["ops"] if case.get("kind", "triple") == "triple" else [case["obj"]]
+
+
+def _with_specs(case, specs, **kw):
+    if case.get("kind", "triple") == "triple":
+        return dict(case, ops=specs, **kw)
+    return dict(case, obj=specs[0], **kw)
+
+
+def _schema_shrinks(case):
+    """smaller schema descriptions of a dynamic family (with the value specs adapted)."""
+    schema = case["schema"]
+    revs = schema["revs"]
+    used = set()
+    for sp in _specs(case):
+        _labels_used(sp, used)
+    for i, r in enumerate(revs):  # drop a class definition nothing refers to
+        if r["label"] in used or any(q["parent"] == r["label"] for q in revs):
+            continue
+        yield dict(case, schema=dict(schema, revs=revs[:i] + revs[i + 1:]))
+    for i, r in enumerate(revs):  # cut an inheritance link (the class keeps its own fields)
+        if r["parent"] is not None:
+            inh = [f for f, _, _, o in dyn_fields(schema, r["label"]) if o != r["label"]]
+            specs = _specs(case)
+            for f in inh:
+                specs = [_strip_field(sp, schema, r["label"], f) for sp in specs]
+            yield _with_specs(dict(case, schema=dict(schema, revs=revs[:i] + [dict(r, parent=None)] + revs[i + 1:])), specs)
+    for i, r in enumerate(revs):  # drop a field
+        for k, (f, _, _) in enumerate(r["fields"]):
+            r2 = dict(r, fields=r["fields"][:k] + r["fields"][k + 1:])
+            specs = [_strip_field(sp, schema, r["label"], f) for sp in _specs(case)]
+            yield _with_specs(dict(case, schema=dict(schema, revs=revs[:i] + [r2] + revs[i + 1:])), specs)
+    for i, r in enumerate(revs):  # simplest way of definition
+        if not r.get("touch", True):
+            yield dict(case, schema=dict(schema, revs=revs[:i] + [dict(r, touch=True)] + revs[i + 1:]))
+    if schema["how"] != "class":
+        yield dict(case, schema=dict(schema, how="class"))
+    for i, r in enumerate(revs):  # required / defaulted field -> optional
+        for k, (f, ty, mode) in enumerate(r["fields"]):
+            if mode != "opt":
+                r2 = dict(r, fields=r["fields"][:k] + [[f, ty, "opt"]] + r["fields"][k + 1:])
+                yield dict(case, schema=dict(schema, revs=revs[:i] + [r2] + revs[i + 1:]))
+
+
 def _shrink(ctx, case, detail):
     from .. import pool
     want = detail.get("kind") if isinstance(detail, dict) else None
-    if case.get("kind", "triple") != "triple":
-        return case, detail
+    triple = case.get("kind", "triple") == "triple"
 
     def fails(c):
-        c = dict(c)
+        c = {k: v for k, v in c.items() if k != "canon"}
         r = pool.run_one(MOD, "realise_canon", c, timeout=60)
         if "ok" not in r or "canon" not in r["ok"]:
             return None
@@ -911,13 +1255,21 @@ def _shrink(ctx, case, detail):
         r = pool.run_one(MOD, "impl", c, timeout=60)
         if "ok" not in r:
             return None
-        ds = [d for d in r["ok"]["oracle"] if d.get("kind") == want]
+        ds = [d for d in r["ok"]["oracle"] if d.get("kind") == want and d.get("values_equal") == detail.get("values_equal")]
         return (c, ds[0]) if ds else None
 
+    def candidates(cur):
+        if cur["family"] == "dyn":
+            yield from _schema_shrinks(cur)
+        specs = _specs(cur)
+        for i in range(len(specs)):
+            for s in _shrinks(specs[i]):
+                yield _with_specs(cur, specs[:i] + [s] + specs[i + 1:], **(dict(harvest=False) if triple else {}))
+
     cur, det = case, detail
-    budget = 120
+    budget = 160
     # simpler sources first
-    for i in range(3):
+    for i in range(3 if triple else 0):
         if cur["src"][i] != "dict":
             c = dict(cur, src=cur["src"][:i] + ["dict"] + cur["src"][i + 1:])
             budget -= 1
@@ -927,17 +1279,15 @@ def _shrink(ctx, case, detail):
     progress = True
     while progress and budget > 0:
         progress = False
-        for i in range(3):
-            for s in _shrinks(cur["ops"][i]):
-                if budget <= 0:
-                    break
-                budget -= 1
-                c = dict(cur, ops=cur["ops"][:i] + [s] + cur["ops"][i + 1:], harvest=False)
-                r = fails(c)
-                if r:
-                    cur, det = r
-                    progress = True
-                    break
+        for c in candidates(cur):
+            if budget <= 0:
+                break
+            budget -= 1
+            r = fails(c)
+            if r:
+                cur, det = r
+                progress = True
+                break
     return cur, det
 
 
